@@ -201,23 +201,23 @@ PROPS = {
         "assumptions": ['apint 0.2.0 contracts (shim/apint.rs, shim/apint_ops.rs) and the gcd crate contract (shim/gcd.rs: returns the mathematical gcd; its divisibility properties are proved)', "vstd's specifications of u64::trailing_zeros / leading_zeros (assume_specification + axioms shipped with vstd)", 'derive-generated PartialEq/Clone of Interval, IntervalDomain, BitvectorDomain restated as structural equality / copy', 'rule R5 (a failing assert!/expect diverges); 64-bit usize; bit widths multiples of 8 (byte_w)'] + ["machine arithmetic: stride >= 2 ==> end - start <= i64::MAX in adjust_end/adjust_start/new (i64 subtraction); exactness of new/adjust_* for widths <= 64 bit"],
     },
     "C03": {
-        "units": ["bitvector", "interval_arith", "interval_domain", "mem_region", "taint"],
-        "level_text": "BitvectorDomain::merge, Interval::signed_merge, IntervalDomain::{signed_merge, signed_merge_and_widen, merge} are extracted verbatim and verified: the merge is well-formed, represents every value represented by either input, and is stable -- when one input's value set contains the other's, the result represents exactly that input (for the widening merge: no widening happens, proved via canonicity of intervals), for every pair of values of the same width (<= 8 bytes for the stability clauses). MemRegion::merge/merge_inner is verified against the property's cell rule (unit mem_region, see C05). Taint::{merge, merge_with} are verified: tainted iff either input is, stable, idempotent, merge_with agrees with merge.",
-        "level_note": "Not covered (closure-based BTreeMap entry/retain APIs over generic value domains, string-keyed identifiers): DataDomain::merge, the Union/Intersect/MergeTop DomainMap strategies; the trait default AbstractDomain::merge_with (compares &mut Self with &Self through core's reference PartialEq impl, no vstd spec). The claim is for the bitvector, interval, taint and memory-region kinds. Widening needs the machine-arithmetic side conditions merge_span <= i64::MAX when the merged stride is >= 2 and widening_delay <= i64::MAX (8-byte values only). Observation outside the quantifier: Interval::signed_merge is not stable for widths above 64 bit (start distance >= 2^64 resets the stride to 1).",
+        "units": ["bitvector", "interval_arith", "interval_domain", "mem_region", "taint", "data_domain"],
+        "level_text": "BitvectorDomain::merge, Interval::signed_merge, IntervalDomain::{signed_merge, signed_merge_and_widen, merge} are extracted verbatim and verified: the merge is well-formed, represents every value represented by either input, and is stable -- when one input's value set contains the other's, the result represents exactly that input (for the widening merge: no widening happens, proved via canonicity of intervals), for every pair of values of the same width (<= 8 bytes for the stability clauses). MemRegion::merge/merge_inner is verified against the property's cell rule (unit mem_region, see C05). Taint::{merge, merge_with} are verified: tainted iff either input is, stable, idempotent, merge_with agrees with merge. DataDomain<T>::merge (pointer/value sets; with is_top, bytesize, new_top, top, is_empty, new_empty, From<T>) is extracted verbatim and verified for every value domain T satisfying the listed hypotheses and any number of targets: the whole result is stated (targets = union with merged offsets for common targets, absolute part, Top flag, size) and from it: represents every concrete value (absolute bitvector or target+offset) represented by either input; stable when the other input is already absorbed; merging with itself represents the same set.",
+        "level_note": "Not covered (closure-based BTreeMap entry/retain APIs): the Union/Intersect/MergeTop DomainMap strategies; the trait default AbstractDomain::merge_with (compares &mut Self with &Self through core's reference PartialEq impl, no vstd spec). The claim is for the bitvector, interval, taint, pointer/value-set (DataDomain) and memory-region kinds. DataDomain: relative to hypotheses on T (merge over-approximates / is stable / clone is identity / keeps byte size, under T's own merge precondition) -- exactly the clauses proved for IntervalDomain in unit interval_domain, but the instantiation is not performed; trusted: one R9 target for `entry(k).and_modify(|o| *o = o.merge(x)).or_insert_with(|| x.clone())` which swallows the two closures (a changed closure gives undecided), vstd BTreeMap specs under obeys_cmp::<AbstractIdentifier>, opaque AbstractIdentifier with identity clone, restated traits. Widening needs the machine-arithmetic side conditions merge_span <= i64::MAX when the merged stride is >= 2 and widening_delay <= i64::MAX (8-byte values only). Observation outside the quantifier: Interval::signed_merge is not stable for widths above 64 bit (start distance >= 2^64 resets the stride to 1).",
         "design_ref": "DESIGN.md section 3 (C03)",
         "default_twins": ["c03.interval_merge", "c03.domain_merge", "c03.bitvector_merge"],
         "sweep_twins": ["c03.interval_merge", "c03.domain_merge", "c03.bitvector_merge"],
-        "not_covered": ["DataDomain::merge (data/trait_impl.rs)", "DomainMap Union/Intersect/MergeTop strategies (domain_map.rs)", "AbstractDomain::merge_with (trait default; &mut Self vs &Self comparison has no vstd spec)"],
+        "not_covered": ["DomainMap Union/Intersect/MergeTop strategies (domain_map.rs)", "AbstractDomain::merge_with (trait default; &mut Self vs &Self comparison has no vstd spec)"],
         "assumptions": ['apint 0.2.0 contracts (shim/apint.rs, shim/apint_ops.rs) and the gcd crate contract (shim/gcd.rs: returns the mathematical gcd; its divisibility properties are proved)', "vstd's specifications of u64::trailing_zeros / leading_zeros (assume_specification + axioms shipped with vstd)", 'derive-generated PartialEq/Clone of Interval, IntervalDomain, BitvectorDomain restated as structural equality / copy', 'rule R5 (a failing assert!/expect diverges); 64-bit usize; bit widths multiples of 8 (byte_w)'] + ["machine arithmetic in signed_merge_and_widen: merged stride >= 2 ==> span of bounds and hints <= i64::MAX; widening_delay <= i64::MAX", "stability clauses of the interval merges for widths <= 64 bit"],
     },
     "C04": {
-        "units": ["interval_bits", "interval_intersect", "interval_domain"],
-        "level_text": "SpecializeByConditional for IntervalDomain (add_signed_less_equal_bound, add_signed_greater_equal_bound, add_unsigned_less_equal_bound, add_unsigned_greater_equal_bound, add_not_equal_bound, intersect, without_widening_hints), StrideRounding::{round_up_to_stride_of, round_down_to_stride_of}, Interval::signed_intersect, compute_intersection_residue_class (Chinese remainder computation), extended_gcd and adjust_to_stride_and_remainder are extracted verbatim and verified for every value, bound and stride of widths up to 8 bytes: Ok(r) keeps every member of the input that satisfies the condition (and adds none), Err is returned only when no member satisfies it.",
-        "level_note": "Machine-arithmetic preconditions: `narrow` (stride >= 2 ==> end - start <= i64::MAX) for the bound functions; for intersect of 33..64 bit wide values lcm(stride_left, stride_right) <= u64::MAX (otherwise the i128 CRT arithmetic overflows and the code returns an error that callers read as 'unsatisfiable' -- observation, outside the precondition). Not covered: SpecializeByConditional for DataDomain (generic wrappers with closures over Option::and_then(..).ok()).",
+        "units": ["interval_bits", "interval_intersect", "interval_domain", "data_domain"],
+        "level_text": "SpecializeByConditional for IntervalDomain (add_signed_less_equal_bound, add_signed_greater_equal_bound, add_unsigned_less_equal_bound, add_unsigned_greater_equal_bound, add_not_equal_bound, intersect, without_widening_hints), StrideRounding::{round_up_to_stride_of, round_down_to_stride_of}, Interval::signed_intersect, compute_intersection_residue_class (Chinese remainder computation), extended_gcd and adjust_to_stride_and_remainder are extracted verbatim and verified for every value, bound and stride of widths up to 8 bytes: Ok(r) keeps every member of the input that satisfies the condition (and adds none), Err is returned only when no member satisfies it. SpecializeByConditional for DataDomain<T> (the five add_*_bound wrappers, without_widening_hints, intersect_relative_values, intersect) is extracted verbatim and verified for every T satisfying the listed hypotheses: Ok(r) keeps targets, Top flag, size and every absolute member satisfying the comparison (and adds none); Err only when self has no targets, no Top values and no absolute member satisfies it; intersect keeps every common concrete value.",
+        "level_note": "Machine-arithmetic preconditions: `narrow` (stride >= 2 ==> end - start <= i64::MAX) for the bound functions; for intersect of 33..64 bit wide values lcm(stride_left, stride_right) <= u64::MAX (otherwise the i128 CRT arithmetic overflows and the code returns an error that callers read as 'unsatisfiable' -- observation, outside the precondition). The DataDomain part is relative to hypotheses on T (each add_*_bound / intersect of T satisfies the C04 clauses under T's own precondition: exactly the contracts proved for IntervalDomain; instantiation not performed) and to the model in which different identifiers denote different values. Trusted R9: `values_mut()` loop rewritten to keys + get_mut (body kept), `filter_map(..).collect()` rewritten to an insert loop (body kept), `x.into()` -> `DataDomain::from(x)`.",
         "design_ref": "DESIGN.md section 3 (C04)",
         "default_twins": ["c04.sle", "c04.sge", "c04.ule", "c04.uge", "c04.ne", "c04.intersect", "c04.interval_intersect"],
         "sweep_twins": ["c04.sle", "c04.sge", "c04.ule", "c04.uge", "c04.ne", "c04.intersect", "c04.interval_intersect"],
-        "not_covered": ["SpecializeByConditional for DataDomain (data/conditional_specialization.rs)"],
+        "not_covered": ["data.rs helpers that are not refinements (replace_*, remove_ids, from_target, TryToBitvec/TryToInterval)"],
         "assumptions": ['apint 0.2.0 contracts (shim/apint.rs, shim/apint_ops.rs) and the gcd crate contract (shim/gcd.rs: returns the mathematical gcd; its divisibility properties are proved)', "vstd's specifications of u64::trailing_zeros / leading_zeros (assume_specification + axioms shipped with vstd)", 'derive-generated PartialEq/Clone of Interval, IntervalDomain, BitvectorDomain restated as structural equality / copy', 'rule R5 (a failing assert!/expect diverges); 64-bit usize; bit widths multiples of 8 (byte_w)'] + ["machine arithmetic: narrow() on the refined value; lcm of the strides <= u64::MAX for 33..64 bit wide intersections", "widths <= 64 bit"],
     },
 }
